@@ -206,24 +206,30 @@ import sys, json, io
 from rbql import rbql_engine, rbql_csv
 out = []
 queries = ['select *', 'update set a1 = "x"', 'update a set a2 = a1', 'select a1, b2 join b on a1 == b1', 'update set a2 = b2 join b on a1 == b1', 'select distinct count a1',
-           'select * except a2', 'select a1 as first, *', 'select top 1 *', 'select a1 where a1 == "nothing"', 'select int("x")']
+           'select * except a2', 'select a1 as first, *', 'select top 1 *', 'select a1 where a1 == "nothing"', 'select int("x")',
+           # the header modifiers mean something for CSV tables only: on list tables they must not consume a row of the caller's tables
+           'select a1 with (header)', 'select a1, b1 join b on a1 == b1 with (headers)', 'update set a1 = "x" with (noheader)', 'select * with (header)']
 for q in queries:
     for pol in ('quoted', 'simple', 'quoted_rfc'):
         for sink in ('csv', 'list'):
             names = ['a,b', 'q"t', 'plain']; jnames = ['k,1', 'v"2']
             if 'a.' not in q:
                 names[2] = None; jnames[1] = 5           # not strings: a writer renders them
-            before = repr((names, jnames))
-            it = rbql_engine.TableIterator([['1', '2', '3'], ['4', '5', '6']], names)
+            A = [['1', '2', '3'], ['4', '5', '6']]
+            B = [['1', 'p'], ['4', 'r', 'surplus']]
+            if ' with (' in q and sink == 'list':
+                names, jnames = None, None          # without column names of their own: the modifier is the only thing that could give the tables a header
+            before = repr((names, jnames, A, B))
+            it = rbql_engine.TableIterator(A, names)
             # a later join record WIDER than the list of join column names: whatever the engine does about the surplus column, the caller's list keeps its length
-            reg = rbql_engine.ListTableRegistry([rbql_engine.ListTableInfo('b', [['1', 'p'], ['4', 'r', 'surplus']], jnames)])
+            reg = rbql_engine.ListTableRegistry([rbql_engine.ListTableInfo('b', B, jnames)])
             w = rbql_csv.CSVWriter(io.StringIO(), False, None, ',', pol) if sink == 'csv' else rbql_engine.TableWriter([])
             err = None
             try:
                 rbql_engine.query(q, it, w, [], reg)
             except Exception as e:
                 err = type(e).__name__
-            out.append({'query': '%s [%s -> %s]' % (q, pol, sink), 'before': before, 'after': repr((names, jnames)), 'err': err})
+            out.append({'query': '%s [%s -> %s]' % (q, pol, sink), 'before': before, 'after': repr((names, jnames, A, B)), 'err': err})
 print(json.dumps(out))
 '''
 
@@ -236,18 +242,21 @@ const {Writable} = require('stream');
 const show = x => JSON.stringify(x, (k, v) => v === undefined ? '<undefined>' : v);
 (async () => {
   const queries = ['select *', "update set a1 = 'x'", 'update a set a2 = a1', 'select a1, b2 join b on a1 == b1', 'update set a2 = b2 join b on a1 == b1', 'select distinct count a1',
-                   'select * except a2', 'select a1 as first, *', 'select top 1 *', "select a1 where a1 == 'nothing'", 'select a1.no.such'];
+                   'select * except a2', 'select a1 as first, *', 'select top 1 *', "select a1 where a1 == 'nothing'", 'select a1.no.such',
+                   'select a1 with (header)', 'select a1, b1 join b on a1 == b1 with (headers)', "update set a1 = 'x' with (noheader)", 'select * with (header)'];
   const out = [];
   for (const q of queries) for (const pol of ['quoted', 'simple', 'quoted_rfc']) for (const sink of ['csv', 'list']) {
-    const names = ['a,b', 'q"t', null], jnames = ['k,1', 5];
-    const before = show([names, jnames]);
+    let names = ['a,b', 'q"t', null], jnames = ['k,1', 5];
+    if (q.indexOf(' with (') != -1 && sink == 'list') { names = null; jnames = null; }
+    const A = [['1', '2', '3'], ['4', '5', '6']], B = [['1', 'p'], ['4', 'r', 'surplus']];
+    const before = show([names, jnames, A, B]);
     const ws = new Writable({write(c, e, cb) { cb(); }});
     const w = sink == 'csv' ? new rbql_csv.CSVWriter(ws, false, 'utf-8', ',', pol) : new rbql.TableWriter([]);
     let err = null;
     try {
-      await rbql.query(q, new rbql.TableIterator([['1', '2', '3'], ['4', '5', '6']], names), w, [], new rbql.SingleTableRegistry([['1', 'p'], ['4', 'r', 'surplus']], jnames));
+      await rbql.query(q, new rbql.TableIterator(A, names), w, [], new rbql.SingleTableRegistry(B, jnames));
     } catch (e) { err = String(e && e.message).slice(0, 60); }
-    out.push({query: q + ' [' + pol + ' -> ' + sink + ']', before: before, after: show([names, jnames]), err: err});
+    out.push({query: q + ' [' + pol + ' -> ' + sink + ']', before: before, after: show([names, jnames, A, B]), err: err});
   }
   console.log(JSON.stringify(out));
 })();
@@ -270,8 +279,8 @@ def column_names_untouched_check(res):
             if o['before'] != o['after']:
                 nbad += 1
                 if nbad <= 2:
-                    res.violations.append({'property': 'C06', 'impl': impl_name, 'why': 'a list of column names handed over by the caller was modified', 'query': o['query'],
-                                           'names_before (input, join)': o['before'], 'names_after': o['after'], 'error': o['err'], 'case_key': 'C06|names|%s|%s' % (impl_name, o['query'])})
+                    res.violations.append({'property': 'C06', 'impl': impl_name, 'why': 'a list of column names or a table handed over by the caller was modified', 'query': o['query'],
+                                           'before (input names, join names, input table, join table)': o['before'], 'after': o['after'], 'error': o['err'], 'case_key': 'C06|names|%s|%s' % (impl_name, o['query'])})
         res.count('column_names_cases_' + impl_name, len(outs))
         res.count('column_names_modified_' + impl_name, nbad)
 
